@@ -214,7 +214,10 @@ struct is_vectorisable<Index<Idx0...>,Index<Idx1...>,Tensor<T,Rest...>> {
     static constexpr size_t fastest_changing_index = get_value<sizeof...(Rest),Rest...>::value;
     static constexpr size_t idx[sizeof...(Idx0)] = {Idx0...};
     static constexpr bool does_2nd_tensor_disappear = ((int)no_of_unique<Idx0...,Idx1...>::value == (int)sizeof...(Idx0) - (int)sizeof...(Idx1));
-    static constexpr bool last_index_contracted = contains(idx,get_value<sizeof...(Idx1),Idx1...>::value);
+    // the last index of the second tensor is also contracted when it is repeated within the second tensor (a trace)
+    static constexpr int idx1[sizeof...(Idx1)] = {(int)Idx1...};
+    static constexpr bool last_index_contracted = contains(idx,get_value<sizeof...(Idx1),Idx1...>::value) ||
+                                                  !is_uniq(idx1,sizeof...(Idx1)-1);
     static constexpr bool is_reducible = does_2nd_tensor_disappear && last_index_contracted;
     static constexpr bool value = (!last_index_contracted) && (fastest_changing_index % _vec_size<simd_abi::sse>::value==0);
     static constexpr bool sse_vectorisability = (!last_index_contracted) &&
@@ -233,7 +236,10 @@ struct is_vectorisable<Index<Idx0...>,Index<Idx1...>,Tensor<float,Rest...>> {
     static constexpr size_t fastest_changing_index = get_value<sizeof...(Rest),Rest...>::value;
     static constexpr size_t idx[sizeof...(Idx0)] = {Idx0...};
     static constexpr bool does_2nd_tensor_disappear = ((int)no_of_unique<Idx0...,Idx1...>::value == (int)sizeof...(Idx0) - (int)sizeof...(Idx1));
-    static constexpr bool last_index_contracted = contains(idx,get_value<sizeof...(Idx1),Idx1...>::value);
+    // the last index of the second tensor is also contracted when it is repeated within the second tensor (a trace)
+    static constexpr int idx1[sizeof...(Idx1)] = {(int)Idx1...};
+    static constexpr bool last_index_contracted = contains(idx,get_value<sizeof...(Idx1),Idx1...>::value) ||
+                                                  !is_uniq(idx1,sizeof...(Idx1)-1);
     static constexpr bool is_reducible = does_2nd_tensor_disappear && last_index_contracted;
     static constexpr bool value = (!last_index_contracted) && (fastest_changing_index % 4==0);
     static constexpr bool sse_vectorisability = (!last_index_contracted) && (fastest_changing_index % 4==0 && fastest_changing_index % 8!=0);
@@ -249,7 +255,10 @@ struct is_vectorisable<Index<Idx0...>,Index<Idx1...>,Tensor<double,Rest...>> {
     static constexpr size_t fastest_changing_index = get_value<sizeof...(Rest),Rest...>::value;
     static constexpr size_t idx[sizeof...(Idx0)] = {Idx0...};
     static constexpr bool does_2nd_tensor_disappear = ((int)no_of_unique<Idx0...,Idx1...>::value == (int)sizeof...(Idx0) - (int)sizeof...(Idx1));
-    static constexpr bool last_index_contracted = contains(idx,get_value<sizeof...(Idx1),Idx1...>::value);
+    // the last index of the second tensor is also contracted when it is repeated within the second tensor (a trace)
+    static constexpr int idx1[sizeof...(Idx1)] = {(int)Idx1...};
+    static constexpr bool last_index_contracted = contains(idx,get_value<sizeof...(Idx1),Idx1...>::value) ||
+                                                  !is_uniq(idx1,sizeof...(Idx1)-1);
     static constexpr bool is_reducible = does_2nd_tensor_disappear && last_index_contracted;
     static constexpr bool value = (!last_index_contracted) && (fastest_changing_index % 2==0);
     static constexpr bool sse_vectorisability = (!last_index_contracted) && (fastest_changing_index % 2==0 && fastest_changing_index % 4!=0);
@@ -617,7 +626,9 @@ struct is_generalised_matrix_vector<Index<Idx0...>,Index<Idx1...> > {
     static constexpr size_t which_one_is_vector = sizeof...(Idx0) > sizeof...(Idx1) ? 1 : 0;
     static constexpr size_t idx0[sizeof...(Idx0)] = {Idx0...};
     static constexpr size_t idx1[sizeof...(Idx1)] = {Idx1...};
-    static constexpr bool value = match_indices_from_end(idx0, idx1) && sizeof...(Idx0) != sizeof...(Idx1);
+    // an index repeated within one operand (a trace) cannot be expressed as a flat matrix product
+    static constexpr bool no_trace = no_of_unique<Idx0...>::value == sizeof...(Idx0) && no_of_unique<Idx1...>::value == sizeof...(Idx1);
+    static constexpr bool value = no_trace && match_indices_from_end(idx0, idx1) && sizeof...(Idx0) != sizeof...(Idx1);
     static constexpr size_t matches_up_to = match_indices_from_end_index(idx0, idx1);
 };
 
@@ -630,7 +641,8 @@ struct is_generalised_vector_matrix<Index<Idx0...>,Index<Idx1...> > {
     static constexpr size_t which_one_is_vector = sizeof...(Idx0) > sizeof...(Idx1) ? 1 : 0;
     static constexpr size_t idx0[sizeof...(Idx0)] = {Idx0...};
     static constexpr size_t idx1[sizeof...(Idx1)] = {Idx1...};
-    static constexpr bool value = match_indices_from_start(idx0, idx1) && sizeof...(Idx0) != sizeof...(Idx1);
+    static constexpr bool no_trace = no_of_unique<Idx0...>::value == sizeof...(Idx0) && no_of_unique<Idx1...>::value == sizeof...(Idx1);
+    static constexpr bool value = no_trace && match_indices_from_start(idx0, idx1) && sizeof...(Idx0) != sizeof...(Idx1);
     static constexpr size_t matches_up_to = match_indices_from_start_index(idx0, idx1);
 };
 
@@ -646,7 +658,8 @@ struct is_generalised_matrix_matrix<Index<Idx0...>,Index<Idx1...> > {
     static constexpr bool is_inner = sizeof...(Idx0) == sizeof...(Idx1) && no_of_unique<Idx0...,Idx1...>::value == sizeof...(Idx1);
     static constexpr size_t idx0[sizeof...(Idx0)] = {Idx0...};
     static constexpr size_t idx1[sizeof...(Idx1)] = {Idx1...};
-    static constexpr bool value = !is_mat_vec && !is_vec_mat && !is_inner && match_indices_from_two_ends(idx0, idx1, ncontracted);
+    static constexpr bool no_trace = no_of_unique<Idx0...>::value == sizeof...(Idx0) && no_of_unique<Idx1...>::value == sizeof...(Idx1);
+    static constexpr bool value = no_trace && !is_mat_vec && !is_vec_mat && !is_inner && match_indices_from_two_ends(idx0, idx1, ncontracted);
 };
 //--------------------------------------------------------------------------------------------------------------------//
 } // namespace internal
